@@ -227,8 +227,9 @@ def _where(exc):
 class SimTransport:
     """what the library sees as its asyncio.DatagramTransport"""
 
-    def __init__(self, sim, node, addr):
+    def __init__(self, sim, node, addr, actor=None):
         self.sim, self.node, self.addr = sim, node, addr
+        self.actor = actor or node
         self.closed = False
         self.blackhole = False
 
@@ -253,10 +254,11 @@ class SimTransport:
 
 
 class SimSocket:
-    __slots__ = ("addr", "chan", "deliver", "ctx", "tag", "queue", "node", "order")
+    __slots__ = ("addr", "chan", "deliver", "ctx", "tag", "queue", "node", "order", "actor")
 
-    def __init__(self, node, addr, chan, deliver, ctx, tag, order):
+    def __init__(self, node, addr, chan, deliver, ctx, tag, order, actor=None):
         self.node, self.addr, self.chan, self.deliver, self.ctx, self.tag = node, addr, chan, deliver, ctx, tag
+        self.actor = actor or node
         self.queue = deque()
         self.order = order
 
@@ -385,13 +387,13 @@ class Sim:
             # closed between readiness and callback: a closed transport reads nothing
             self.stats["dgram_to_dead_socket"] += 1
             return
-        self.rec("rx", sock.node, (sock.chan, src, payload))
+        self.rec("rx", sock.actor, (sock.chan, src, payload))
         self.stats["delivered"] += 1
         sock.deliver(payload, src)
 
     # -- network
-    def open_socket(self, node, addr, chan, deliver, ctx, tag, group=None):
-        s = SimSocket(node, addr, chan, deliver, ctx, tag, len(self.sockets))
+    def open_socket(self, node, addr, chan, deliver, ctx, tag, group=None, actor=None):
+        s = SimSocket(node, addr, chan, deliver, ctx, tag, len(self.sockets), actor)
         self.sockets[(addr, chan)] = s
         if group is not None:
             self.groups.setdefault(group, []).append(s)
@@ -406,7 +408,7 @@ class Sim:
 
     def net_send(self, transport, data, dst):
         src = transport.addr
-        self.rec("tx", transport.node, (src, dst, data))
+        self.rec("tx", transport.actor, (src, dst, data))
         self.stats["sent"] += 1
         for h in self.tx_hooks:
             h(transport.node, src, dst, data)
@@ -550,6 +552,8 @@ class NetFaults:
         self.windows = cfg.get("windows", [])
         self.partitions = cfg.get("partitions", [])  # [{t0,t1,a,b}]
         self.last_fault_arrival = 0.0
+        self.fifo = False
+        self.flow_last = {}
 
     def route(self, src, sock, data):
         sim = self.sim
@@ -561,7 +565,7 @@ class NetFaults:
         for p in self.partitions:
             if p["t0"] <= now < p["t1"] and _cut(p, src, sock.addr):
                 sim.stats["partition_drop"] += 1
-                sim.rec("net-drop", sock.node, ("partition", src))
+                sim.rec("net-drop", sock.actor, ("partition", src))
                 return
         copies = 1
         faulted = False
@@ -576,7 +580,7 @@ class NetFaults:
             k = w["kind"]
             if k == "drop":
                 sim.stats["drop"] += 1
-                sim.rec("net-drop", sock.node, ("drop", src))
+                sim.rec("net-drop", sock.actor, ("drop", src))
                 return
             if k == "dup":
                 copies += 1
@@ -588,8 +592,15 @@ class NetFaults:
                 faulted = True
         for c in range(copies):
             t = now + delay + (c * (self.lat + 0.001))
-            if faulted and t > self.last_fault_arrival:
-                self.last_fault_arrival = t
+            if faulted:
+                if t > self.last_fault_arrival:
+                    self.last_fault_arrival = t
+            elif self.fifo:
+                # outside fault windows a flow is FIFO: jitter never reorders
+                last = self.flow_last.get(flow, 0.0)
+                if t <= last:
+                    t = last + 1e-7
+                self.flow_last[flow] = t
             sim.at(t, "dgram", (sock, data, src))
 
 
